@@ -52,7 +52,9 @@ package interpreter
 // bal: the balance a statement sees (0 when the pair is not in the cache); known: presence in the cache
 //@ view known(st, a, c) = has(st.CachedBalances, a) && has(st.CachedBalances[a], c)
 //@ view bal(st, a, c) = ite(has(st.CachedBalances, a) && has(st.CachedBalances[a], c), val(st.CachedBalances[a][c]), 0)
-//@ spec cacheOk(st) = st != nil && st.CachedBalances != nil && cacheCells(st) && cacheDistinct(st)
+//@ spec cacheOk(st) = st != nil && st.CachedBalances != nil && cacheCells(st) && cacheDistinct(st) && cellsDistinct(st)
+// every (account, asset) pair has its own big integer
+//@ spec cellsDistinct(st) = forallstr(a, c, b, d, known(st, a, c) && known(st, b, d) && (a != b || c != d) ==> st.CachedBalances[a][c] != st.CachedBalances[b][d])
 //@ spec cacheCells(st) = forallstr(a, has(st.CachedBalances, a) ==> st.CachedBalances[a] != nil && forallstr(c, has(st.CachedBalances[a], c) ==> st.CachedBalances[a][c] != nil))
 // every account has its own map of assets (the cache owns them: they are created by the interpreter)
 //@ spec cacheDistinct(st) = forallstr(a, forallstr(b, has(st.CachedBalances, a) && has(st.CachedBalances, b) && a != b ==> st.CachedBalances[a] != st.CachedBalances[b]))
@@ -71,6 +73,7 @@ package interpreter
 //@   ensures [view-unchanged] {C01,C09,C10} forallstr(a, forallstr(c, bal(s, a, c) == old(bal(s, a, c))))
 //@   ensures [cache-grew] {C10,C11} cacheGrew(s)
 //@   ensures [known-grows] {C10} forallstr(a, forallstr(c, old(known(s, a, c)) ==> known(s, a, c)))
+//@   ensures [known-only] {C10} forallstr(a, c, known(s, a, c) && !old(known(s, a, c)) ==> a == account && c == asset)
 //@   ensures [cache-ok] cacheOk(s)
 //@   ensures [amounts-untouched] {C11} heapsame(bigint)
 //@   modifies entries(s.CachedBalances), allentries("map[string]*math/big.Int")
@@ -321,3 +324,29 @@ package interpreter
 //@     invariant [postings-apart] forall(k, 0, len(postings), forall(j, 0, len(senders), postings[k].Amount != senders[j].Monetary) && forall(j, 0, len(receivers), postings[k].Amount != receivers[j].Monetary))
 //@     invariant [balance] {C03,C07} sumMon(senders, len(senders)) == sumMon(receivers, len(receivers))
 //@     invariant [posted] {C03,C07} sumAmounts(postings, len(postings)) + sumMonNot(receivers, len(receivers), KEPT_ADDR) == old(sumMonNot(receivers, len(receivers), KEPT_ADDR))
+
+// ---------------------------------------------------------------- statements
+
+// Pairs the queued senders and receivers and applies the postings to the cached balances.
+//@ func (*programState).getPostings
+//@   requires [state] cacheOk(st) && sendersPositive(st.Senders) && sendersPositive(st.Receivers)
+//@   requires [balanced] {C03} sumMon(st.Senders, len(st.Senders)) == sumMon(st.Receivers, len(st.Receivers))
+//@   ensures [no-error] {C03} err == nil
+//@   ensures [amount-positive] {C02} forall(k, 0, len(result), result[k].Amount != nil && val(result[k].Amount) > 0)
+//@   ensures [asset] {C02} forall(k, 0, len(result), result[k].Asset == st.CurrentAsset)
+//@   ensures [dest-not-kept] {C02,C05} forall(k, 0, len(result), result[k].Destination != KEPT_ADDR)
+//@   ensures [conservation] {C03,C05} sumAmounts(result, len(result)) == old(sumMonNot(st.Receivers, len(st.Receivers), KEPT_ADDR))
+//@   ensures [other-assets] {C09} forallstr(a, c, c != st.CurrentAsset ==> bal(st, a, c) == old(bal(st, a, c)))
+//@   ensures [cache-ok] cacheOk(st)
+//@   modifies heap(bigint), entries(st.CachedBalances), allentries("map[string]*math/big.Int"), elems(st.Senders), elems(st.Receivers)
+//@   loop 1
+//@     invariant [postings-ok] {C02} forall(k, 0, len(postings), postings[k].Amount != nil && val(postings[k].Amount) > 0 && postings[k].Asset == st.CurrentAsset && postings[k].Destination != KEPT_ADDR && allocated(ref(postings[k].Amount)))
+//@     invariant [amounts-apart] forall(k, 0, len(postings), notCell(st, postings[k].Amount))
+//@     invariant [amounts-kept] {C03} sumAmounts(postings, len(postings)) == atloop(sumAmounts(postings, len(postings)))
+//@     invariant [other-assets] {C09} forallstr(a, c, c != st.CurrentAsset ==> bal(st, a, c) == old(bal(st, a, c)))
+//@     invariant [cache-ok] cacheOk(st)
+//@     assert [step-cells] known(st, posting.Source, posting.Asset) && known(st, posting.Destination, posting.Asset) && st.CachedBalances[posting.Source][posting.Asset] == srcBalance && st.CachedBalances[posting.Destination][posting.Asset] == destBalance
+//@     assert [step-known] forallstr(a, c, athead(known(st, a, c)) ==> known(st, a, c) && st.CachedBalances[a][c] == athead(st.CachedBalances[a][c]))
+//@     assert [step-new] forallstr(a, c, known(st, a, c) && !athead(known(st, a, c)) ==> (a == posting.Source || a == posting.Destination) && c == posting.Asset)
+//@     assert [step-others] forallstr(a, c, known(st, a, c) && st.CachedBalances[a][c] != srcBalance && st.CachedBalances[a][c] != destBalance ==> bal(st, a, c) == athead(bal(st, a, c)))
+//@     assert [apply-step] {C01,C09} forallstr(a, c, bal(st, a, c) == athead(bal(st, a, c)) - ite(a == posting.Source && c == posting.Asset, val(posting.Amount), 0) + ite(a == posting.Destination && c == posting.Asset, val(posting.Amount), 0))
